@@ -6,7 +6,7 @@
    Statements only. *)
 From Coq Require Import List Arith Bool.
 From M Require Import Base Flat Hsm HsmSpec.
-From P Require Import HsmForest HsmResolve HsmReach.
+From P Require Import HsmForest HsmResolve HsmReach HsmInit.
 Import ListNotations.
 
 Section C02.
@@ -73,6 +73,21 @@ Theorem C02_registered :
   forall (hm : hmachine) (f f' : forest), wf_defs hm = true -> reach hm f f' -> reg hm f -> reg hm f'.
 Proof. exact reach_reg. Qed.
 Print Assumptions C02_registered.
+
+(* Entering a state also enters its initial descendants, recursively: for every configuration,
+   declaring scope (active) and destination whose definition is not deeper than the engine's
+   bound (64 levels), every state the transition ENTERS that ends up as a leaf of the new
+   configuration lies at or below the destination and declares no initial child that exists -
+   the entered part of the configuration ends in leaves or in states without an initial substate. *)
+Theorem C02_initial_closure :
+  forall (hm : hmachine) (f : forest) (sc dst : path) (dd : sdefn) (r : resolution) (cur : forest),
+    dst <> [] -> sub f sc = Some cur ->
+    find_def (scope_children hm sc) dst = Some dd -> sd_depth dd <= def_depth_bound ->
+    resolve f sc dst dd = Some r ->
+    forall p, In p (r_enters r) -> sub (r_new r) p = Some [] ->
+      exists q d, p = sc ++ dst ++ q /\ rel_def dd q = Some d /\ no_init d.
+Proof. exact resolve_initial_closure. Qed.
+Print Assumptions C02_initial_closure.
 
 (* non-vacuity: a transition between two regions' states in a parallel state *)
 Example C02_example :
